@@ -392,7 +392,7 @@ func (g *Gen) redirFile() string {
 
 // Stmt generates one statement (never ends in a separator).
 func (g *Gen) Stmt(d int) string {
-	k := g.R.IntN(30)
+	k := g.R.IntN(32)
 	if d <= 0 && k >= 8 {
 		k = g.R.IntN(8)
 	}
@@ -559,6 +559,25 @@ func (g *Gen) Stmt(d int) string {
 	case 27:
 		g.feat("slice")
 		return "echo " + g.pick([]string{"${s:$a}", "${s:($a)}", "${s:(1):(2)}", "${s:$a:$b}", "${s:a}", "${arr[@]:$a}", "${arr[@]:(1):1}", "${@:$a}", "${s:${a}:${b}}"})
+	case 29, 30:
+		// several backquote substitutions in one file: a double-quoted one first, then unquoted
+		// ones whose bodies contain escaped quotes, backslashes and dollars (parser state that
+		// leaks from one substitution to the next shows up only in such sequences)
+		g.feat("backquote-sequence")
+		first := g.pick([]string{"q=\"`echo hi`\"", "echo \"`echo a  b`\"", "q=\"x`echo \\\"y\\\"`z\"", "printf '%s\\n' \"`echo 1` `echo 2`\""})
+		later := []string{
+			"echo `echo \\\"a   b\\\"`",
+			"echo `echo \\\\$s \\$s`",
+			"echo `echo \\\"$t\\\"` `echo 'c  d'`",
+			"printf '%s\\n' `echo \\\"x\\\" \\\\\\\\y`",
+			"echo `echo \"a   b\"`",
+			"r=`echo \\\"p   q\\\"`; echo \"$r\" $r",
+		}
+		s := first + g.sep() + g.pick(later)
+		if g.p(2) {
+			s += g.sep() + g.pick(later)
+		}
+		return s
 	case 28:
 		g.feat("errexit")
 		return g.pick([]string{"set -e", "set -u", "set +e", "set -o pipefail", "shopt -s nullglob", "set -f", "shopt -s extglob"})
